@@ -35,7 +35,9 @@ def main(argv):
             groups.setdefault(r.obl.meta.get('group', r.obl.name), []).append(r.verdict)
     for r in res:
         o = r.obl
-        if o.kind == 'V' and o.meta.get('expect') == 'sat':
+        if o.kind == 'V' and o.meta.get('strict'):
+            ok = r.verdict != 'unsat'
+        elif o.kind == 'V' and o.meta.get('expect') == 'sat':
             ok = 'sat' in groups[o.meta.get('group', o.name)] or r.verdict == 'unknown'
         elif o.kind == 'K':
             ok = True
